@@ -227,6 +227,27 @@ BASES = [
         + [(f'1099-int:{n}.box_1', str(150 + 10 * n)) for n in range(12)]
         + [(f'1099-int:{n}.payer', f'Bank {n}') for n in range(12)]
         + [('1099-int:11.box_4', '12')])),
+    # declared-unsupported by construction (C09): foreign tax on an interest and on a dividend statement, each within
+    # the Form 1116 exemption of a single filer (300), together above it
+    Base('B23-split-foreign-tax', ['1040'], dict(W2, **{
+        '1040.number_1099-int': '1', '1099-int:0.box_1': '2000', '1099-int:0.box_6': '200', '1099-int:0.payer': 'Bank',
+        '1040.number_1099-div': '1', '1099-div:0.box_1a': '2500', '1099-div:0.box_1b': '2500', '1099-div:0.box_7': '200', '1099-div:0.payer': 'Fund',
+    })),
+    # amounts that are exact binary ties at the cent (x.125, x.375, x.625, x.875) on a return with whole-dollar N.C. lines
+    Base('B22-nc-binary-ties', ['1040', 'nc_d-400'], dict(W2, **{
+        '1040.state': 'NC', 'nc_d-400.county': 'Wake', 'nc_d-400.nc_residents': 'yes', 'nc_d-400.no_consumer_use_tax': 'yes',
+        'w-2:0.box_1': '60000.625', 'w-2:0.box_2': '7000.375', 'w-2:0.box_17': '2500.125', 'w-2:0.box_16': '60000.875',
+        '1040.number_1099-int': '1', '1099-int:0.box_1': '310.125', '1099-int:0.box_4': '31.625', '1099-int:0.payer': 'Bank',
+        '1040.number_1098': '1', '1098:0.box_1': '3000.375',
+    })),
+    # N.C. tax due (little withheld) by a filer who would have a refund applied / contributed if there were one
+    Base('B24-nc-tax-due', ['1040', 'nc_d-400'], dict(W2, **{
+        '1040.state': 'NC', 'nc_d-400.county': 'Wake', 'nc_d-400.nc_residents': 'yes', 'nc_d-400.no_consumer_use_tax': 'yes',
+        'w-2:0.box_17': '500', '1040.number_1098': '1', '1098:0.box_1': '3000',
+        'nc_d-400.2024_estimated_income_tax': '50', 'nc_d-400.2023_estimated_income_tax': '50', 'nc_d-400.2022_estimated_income_tax': '50',
+        'nc_d-400.nc_education_endowment': '25', 'nc_d-400.nc_nongame_endangered_wildlife': '10',
+        '1040.apply_to_estimated_tax': '100',
+    })),
     Base('B7-dense', ['1040'], {
         '1040.number_w-2': '2', 'w-2:1.belongs_to': 'spouse', '1040.filing_status': 'MarriedFilingJointly',
         '1040.number_1099-int': '1', '1040.number_1099-div': '1', '1040.number_1099-g': '1', '1040.number_1098': '1',
@@ -241,7 +262,7 @@ BASES = [
 ]
 
 
-EXPECT_REFUSED = ('B17-fifteen-payers',)     # these base returns must never solve (C09)
+EXPECT_REFUSED = ('B17-fifteen-payers', 'B23-split-foreign-tax')     # these base returns must never solve (C09)
 QUICK_BASES = ('B0-single-wage', 'B2-investor', 'B4-schedule1', 'B6-nc', 'B7-dense')
 
 
@@ -407,7 +428,7 @@ def structural_pairs(year):
 
 
 def explore_all(run, pid, tier, years=(2021, 2022, 2023), depth_quick=1, depth_thorough=2, bases=None, quick_bases=None,
-                deep_quick=('B0-single-wage',), finding_key=None):
+                deep_quick=('B0-single-wage',), finding_key=None, deep_thorough=None):
     """explore every base of every year; feeds a runner.Run"""
     for year in years:
         for base in bases_for(year):
@@ -415,7 +436,10 @@ def explore_all(run, pid, tier, years=(2021, 2022, 2023), depth_quick=1, depth_t
                 continue
             if tier == 'thorough':
                 depth = depth_thorough
-                if depth >= 2 and bases is None and not (base.name == 'B0-single-wage' or (year == 2023 and base.name in ('B2-investor', 'B6-nc'))):
+                if deep_thorough is not None:
+                    if depth >= 2 and (year, base.name) not in deep_thorough:
+                        depth = 1  # the properties whose monitor re-solves every node several times state a smaller set
+                elif depth >= 2 and bases is None and not (base.name == 'B0-single-wage' or (year == 2023 and base.name in ('B2-investor', 'B6-nc'))):
                     depth = 1      # two deviations on B0 (all years) and on B2 / B6 of 2023; one elsewhere
             else:
                 depth = depth_quick
